@@ -572,6 +572,53 @@ def r7(ctx, R="C01-R7"):
         ctx.inst(R, f"clock-read:{root.id}->{t['f'].rsplit('::', 1)[1]}", ok, t["s"], "read from host code / under an entered runtime" if ok else
                  f"`{root.id}` reads the host clock through `{t['f']}` with no runtime entered: tokio::time::Instant::now() falls back to the wall clock there, so the value "
                  "(the `now` handed to the simulated filesystem and io_uring: file timestamps, completion times) is epoch + sim time + real elapsed time and differs from run to run")
+    # the clock source itself: tokio's Instant::now() / elapsed() are virtual only inside a paused runtime
+    NOW_OK = {"turmoil::host::HostTimer::elapsed": "in-step progress of the host, read from host code (or None between steps)",
+              "turmoil::rt::Rt::now": "reads the host runtime's clock under Runtime::enter",
+              "turmoil_io_uring::async_fd::AsyncFd::readable": "host code waiting on a ring, inside the host's runtime"}
+    for b, bb, t in who_calls(ctx.w, re.compile(r"^tokio::time::Instant::(now|elapsed)$|^std::time::Instant::(now|elapsed)$")):
+        root = b
+        while root.parent and root.parent in ctx.w.bodies:
+            root = ctx.w.bodies[root.parent]
+        if not in_repo(root.id) or "::test" in root.id:
+            continue
+        ok = root.id in NOW_OK
+        ctx.inst(R, f"instant:{root.id}", ok, t["s"], NOW_OK.get(root.id, "") if ok else
+                 f"`{root.id}` reads `{t['f']}`: outside a host's paused runtime this is the wall clock (and inside one it is that host's clock, not the link's): "
+                 "whatever is scheduled from it depends on how long the process has really been running")
+    ctx.floor(R, 6)
+
+
+def r8(ctx):
+    R = "C01-R8"
+    ctx.rule(R, "scoped process state is restored unconditionally: every thread-local that an enter-guard's Drop manages is written back on "
+                "every path through the drop (the `LocalKey::with(..)` that restores it is not under a condition). A restore skipped when "
+                "there was no outer value leaves the thread-local pointing at the last host / simulation: later drops outside any `enter` "
+                "then act on the wrong host's state, and a second simulation in the same process starts from a different state")
+    n = 0
+    guards = sorted({a for accs in ACCESSORS.values() for a in accs if a.endswith("as std::ops::Drop>::drop")})
+    for gid in guards:
+        b = ctx.w.bodies.get(gid)
+        if not b:
+            continue
+        managed = sorted(k for k, accs in ACCESSORS.items() if gid in accs)
+        withs = [(bb, t) for bb, t in b.calls(re.compile(r"LocalKey<T>::with$|LocalKey::with$|LocalKey<T>::set$|LocalKey::set$|LocalKey<T>::replace$|ScopedKey"))]
+        for kid in managed:
+            def names(a):
+                o = origin(b, a)
+                c = o.get("op") if o["k"] == "const" else None
+                if o["k"] == "ref":
+                    o2 = origin(b, {"c": o["p"]})
+                    c = o2.get("op") if o2["k"] == "const" else None
+                return {c.get("def"), c.get("static")} if c else set()
+            sites = [bb for bb, t in withs if any(kid in names(a) for a in t["args"])]
+            if not sites:
+                # the key may be restored by a helper; accept a call that is handed the key
+                continue
+            n += 1
+            ok = not always_passes(b, sites)
+            ctx.inst(R, f"restore:{kid}<-{gid}", ok, b.term(sites[0])["s"], "restored on every path of the guard's drop" if ok else
+                     f"`{gid}` restores `{kid}` only on some paths: when there was no outer value the thread-local keeps pointing at this host's state after the guard is gone")
     ctx.floor(R, 3)
 
 
@@ -585,6 +632,7 @@ def run(ctx):
     r5(ctx)
     r6(ctx)
     r7(ctx)
+    r8(ctx)
 
 
 TABLE_ACCESSORS = GLOBALS
